@@ -1,9 +1,105 @@
-import LLTD.Model.Event
-import LLTD.Spec.Block
+/-
+  C10 — Probes emitted by one responder are observed by a peer responder.
+  The emitting half (C06: what sendProbeMsg puts on the wire) composed with the observing half (C07: what
+  parseProbe records): they agree on which header field names the addressee.
+-/
+import LLTD.Props.C06
+import LLTD.Props.C07
 
 namespace LLTD.C10
-open LLTD LLTD.Spec
+open LLTD
 
-theorem placeholder_layout : X.sizeofDemux = 32 := by decide
+/-- the fields the observing half reads from a frame built by the emitting half -/
+theorem header_fields (resv : Nat) (ed es rd rs : Mac) (seq op tos : Nat) (rest : List Nat)
+    (h1 : ed.length = 6) (h2 : es.length = 6) (h3 : rd.length = 6) (h4 : rs.length = 6) :
+    let f := lltdHeader resv ed es rd rs seq op tos ++ rest
+    fEthDst f = ed ∧ fEthSrc f = es ∧ fRealDst f = rd ∧ fRealSrc f = rs ∧ fOpcode f = op ∧ fTos f = tos := by
+  obtain ⟨a1, a2, a3, a4, a5, a6, rfl⟩ := len6 ed h1
+  obtain ⟨b1, b2, b3, b4, b5, b6, rfl⟩ := len6 es h2
+  obtain ⟨c1, c2, c3, c4, c5, c6, rfl⟩ := len6 rd h3
+  obtain ⟨d1, d2, d3, d4, d5, d6, rfl⟩ := len6 rs h4
+  simp [lltdHeader, be2, fEthDst, fEthSrc, fRealDst, fRealSrc, fOpcode, fTos, slice, byteAt]
+
+/-- THE PEER THEOREM: the Probe/Train that responder A emits for a descriptor whose destination is responder B
+    is, when delivered unmodified into B's receive buffer, recorded by B — with A as real source, the descriptor's
+    source as Ethernet source — or was recorded already under that very key -/
+theorem peer_records (a b : Cfg) (w : World) (stB : St) (src : Mac) (ty : Nat) (tail : List Nat)
+    (ha : CfgOk a) (hb : CfgOk b) (hma : a.failMac = false) (hmb : b.failMac = false) (hsrc : src.length = 6)
+    (hroom : stB.count < 1024) (hm : (w.malloc X.nodeBytes).2 = true) :
+    let img := C06.probeFrame a src b.mac ty ++ tail
+    ∃ o ∈ (parseProbe b w stB img).st.sees, o.realSrc = a.mac ∧ o.src = src := by
+  have hoa : a.ourMac = a.mac := by simp [Cfg.ourMac, hma]
+  have hob : b.ourMac = b.mac := by simp [Cfg.ourMac, hmb]
+  have hf := header_fields 0 b.mac src b.mac a.ourMac 0 (if ty = 1 then X.opProbe else X.opTrain) X.tosDiscovery tail
+    hb.mac6 hsrc hb.mac6 (ourMac_length a ha)
+  simp only [] at hf ⊢
+  obtain ⟨f1, f2, f3, f4, f5, f6⟩ := hf
+  have himg : C06.probeFrame a src b.mac ty ++ tail =
+      lltdHeader 0 b.mac src b.mac a.ourMac 0 (if ty = 1 then X.opProbe else X.opTrain) X.tosDiscovery ++ tail := rfl
+  rw [himg]
+  generalize lltdHeader 0 b.mac src b.mac a.ourMac 0 (if ty = 1 then X.opProbe else X.opTrain) X.tosDiscovery ++ tail = img at *
+  have hus : fRealDst img = b.ourMac := by rw [f3, hob]
+  by_cases hdup : stB.sees.any (fun p => (C07.obsOfFrame img).src == p.src && (C07.obsOfFrame img).realSrc == p.realSrc) = true
+  · -- already recorded under this key
+    have := (C07.record_dup b w stB img hdup).1
+    rw [this]
+    rw [List.any_eq_true] at hdup
+    obtain ⟨p, hp, hk⟩ := hdup
+    simp only [C07.obsOfFrame, Bool.and_eq_true, beq_iff_eq] at hk
+    exact ⟨p, hp, by rw [← hk.2, f4, hoa], by rw [← hk.1, f2]⟩
+  · simp only [Bool.not_eq_true] at hdup
+    have := (C07.record_new b w stB img hus hroom hm hdup).1
+    rw [this]
+    exact ⟨C07.obsOfFrame img, by simp, by simp [C07.obsOfFrame, f4, hoa], by simp [C07.obsOfFrame, f2]⟩
+
+/-- the emitting half names the descriptor's destination — not the mapper — as real destination
+    (the disagreement repaired in beda968: before, B's filter `real destination = own address` never matched) -/
+theorem emitted_real_destination (a : Cfg) (src dst : Mac) (ty : Nat) (ha : CfgOk a) (hs : src.length = 6) (hd : dst.length = 6) :
+    fRealDst (C06.probeFrame a src dst ty) = dst ∧ fRealSrc (C06.probeFrame a src dst ty) = a.ourMac := by
+  have hf := header_fields 0 dst src dst a.ourMac 0 (if ty = 1 then X.opProbe else X.opTrain) X.tosDiscovery [] hd hs hd (ourMac_length a ha)
+  simp only [List.append_nil] at hf
+  exact ⟨hf.2.2.1, hf.2.2.2.1⟩
+
+/-- parseProbe either leaves the record as it is or puts one observation in front -/
+theorem parseProbe_sees (b : Cfg) (w : World) (st : St) (img : List Nat) :
+    (parseProbe b w st img).st.sees = st.sees ∨ ∃ o', (parseProbe b w st img).st.sees = o' :: st.sees := by
+  unfold parseProbe
+  by_cases h1 : (fRealDst img != b.ourMac) = true
+  · simp only [h1, if_true]; first | exact Or.inl rfl | exact Or.inl trivial | simp
+  · simp only [h1, if_false]
+    by_cases h2 : seesFull st.count = true
+    · simp only [h2, if_true]; first | exact Or.inl rfl | exact Or.inl trivial | simp
+    · simp only [h2, if_false]
+      by_cases h3 : (w.malloc X.nodeBytes).2 = true
+      · simp only [h3, Bool.not_true, Bool.false_eq_true, if_false]
+        by_cases h4 : st.sees.any (fun p => fEthSrc img == p.src && fRealSrc img == p.realSrc) = true
+        · simp only [h4, if_true]; first | exact Or.inl rfl | exact Or.inl trivial | simp
+        · simp only [h4, if_false]; first | exact Or.inr ⟨_, rfl⟩ | simp
+      · simp only [Bool.not_eq_true] at h3
+        simp only [h3, Bool.not_false, if_true]; first | exact Or.inl rfl | exact Or.inl trivial | simp
+
+/-- a recorded observation stays recorded under every later Probe/Train (only a Query or a Reset removes it) -/
+theorem stays_recorded (b : Cfg) (w : World) (st : St) (img : List Nat) (o : Obs) (h : o ∈ st.sees) :
+    o ∈ (parseProbe b w st img).st.sees := by
+  rcases parseProbe_sees b w st img with e | ⟨o', e⟩
+  · rw [e]; exact h
+  · rw [e]; exact List.mem_cons_of_mem _ h
+
+/-- and the next Query lists it if it is among the first `capacity` pending observations (C07.query) -/
+theorem listed_by_query (b : Cfg) (w : World) (st : St) (img : List Nat) (hc : CfgOk b) (hi : St.Inv st)
+    (hm : (w.malloc b.mtuEff).2 = true) (hfew : st.sees.length ≤ queryMaxDescs b.mtuEff) :
+    (parseQuery b w st img).fx =
+      [Fx.send ((w.malloc b.mtuEff).1.send).2 b.idx (queryFrame b img (fSeq img) st.sees.length false (st.sees.flatMap obsWire))] := by
+  have h := (C07.query b w st img hc hi hm).1
+  have hmin : min st.sees.length (queryMaxDescs b.mtuEff) = st.sees.length := Nat.min_eq_left hfew
+  rw [hmin] at h
+  rw [List.take_length] at h
+  have hd : decide (st.sees.length > st.sees.length) = false := by simp
+  rw [hd] at h
+  exact h
+
+/-- non-vacuity -/
+example : CfgOk { mac := [2, 0xaa, 0, 0, 0, 1], mtu := 1500 } ∧ CfgOk { mac := [2, 0xaa, 0, 0, 0, 2], mtu := 576 } :=
+  ⟨⟨rfl, rfl, rfl, rfl, by decide, by decide⟩, ⟨rfl, rfl, rfl, rfl, by decide, by decide⟩⟩
 
 end LLTD.C10
